@@ -32,6 +32,8 @@ if REPO != "/repo":
 BIN = os.path.join(HARNESS, "bin", "cedarconf")
 # evidence and replay files of experiments against a scratch worktree never touch the committed ones
 OUTDIR = VERIF if REPO == "/repo" else os.path.join(os.path.dirname(HARNESS), "out-" + os.path.basename(HARNESS))
+if os.environ.get("VERIF_EVID_SCRATCH"):        # seed sweeps on the unchanged tree: do not touch the committed evidence
+    OUTDIR = os.path.join(VERIF, ".work", "out-sweep")
 GOENV = dict(os.environ, GOFLAGS="-mod=mod", GOPROXY="off", GOSUMDB="off", GOTOOLCHAIN="local", CGO_ENABLED="0")
 TLA_CP = "/opt/veriftools/tla/tla2tools.jar:/opt/veriftools/tla/CommunityModules-deps.jar"
 NCPU = os.cpu_count() or 4
@@ -61,24 +63,34 @@ def run(cmd, cwd=None, env=None, timeout=None, check=True, capture=True):
 
 
 def build_harness(race=False):
-    """rebuild the harness against /repo's current working tree (hooks on)"""
-    try:
-        shutil.copyfile(os.path.join(REPO, "go.sum"), os.path.join(HARNESS, "go.sum"))
-    except OSError:
-        pass
-    with open(os.path.join(HARNESS, "go.mod"), "w") as f:
-        f.write("module verifharness\n\ngo 1.23.0\n\nrequire github.com/cedar-policy/cedar-go v0.0.0\n\n"
+    """rebuild the harness against /repo's current working tree (hooks on); concurrent checks serialise on a lock and
+    the binary is replaced atomically"""
+    import fcntl
+    os.makedirs(os.path.join(HARNESS, "bin"), exist_ok=True)
+    with open(os.path.join(HARNESS, "bin", ".build.lock"), "w") as lock:
+        fcntl.flock(lock, fcntl.LOCK_EX)
+        try:
+            shutil.copyfile(os.path.join(REPO, "go.sum"), os.path.join(HARNESS, "go.sum"))
+        except OSError:
+            pass
+        want = ("module verifharness\n\ngo 1.23.0\n\nrequire github.com/cedar-policy/cedar-go v0.0.0\n\n"
                 "replace github.com/cedar-policy/cedar-go => %s\n" % REPO)
-    out = BIN + ("-race" if race else "")
-    cmd = ["go", "build", "-tags", "verif", "-o", out]
-    env = GOENV
-    if race:
-        cmd.insert(2, "-race")
-        env = dict(GOENV, CGO_ENABLED="1")
-    cmd.append("./cmd/cedarconf")
-    p = run(cmd, cwd=HARNESS, env=env, timeout=900, check=False)
-    if p.returncode != 0:
-        raise Broken("harness does not build against %s:\n%s" % (REPO, p.stdout[-4000:]))
+        gm = os.path.join(HARNESS, "go.mod")
+        if not os.path.exists(gm) or open(gm).read() != want:
+            with open(gm, "w") as f:
+                f.write(want)
+        out = BIN + ("-race" if race else "")
+        tmp = out + ".tmp%d" % os.getpid()
+        cmd = ["go", "build", "-tags", "verif", "-o", tmp]
+        env = GOENV
+        if race:
+            cmd.insert(2, "-race")
+            env = dict(GOENV, CGO_ENABLED="1")
+        cmd.append("./cmd/cedarconf")
+        p = run(cmd, cwd=HARNESS, env=env, timeout=900, check=False)
+        if p.returncode != 0:
+            raise Broken("harness does not build against %s:\n%s" % (REPO, p.stdout[-4000:]))
+        os.replace(tmp, out)
     return out
 
 
@@ -294,10 +306,16 @@ def tlc_validate(ctx, name, module, files, timeout=3600, cfg=None, depth=0, coun
     t = time.time()
     extra = TRACE_CFG.get(module, "")
     cfg = cfg or (extra if extra.startswith("INIT") else VALIDATE_CFG + extra)
+    todo = [(k, f) for k, f in enumerate(files) if os.path.getsize(f) > 0]
+    if len(todo) > MAX_SHARDS and depth == 0:
+        # more shards than TLC processes that fit in memory side by side: validate in waves
+        results = []
+        for i in range(0, len(todo), MAX_SHARDS):
+            results += tlc_validate(ctx, "%s.w%d" % (name, i // MAX_SHARDS), module, [f for _, f in todo[i:i + MAX_SHARDS]],
+                                    timeout, cfg, depth, count)
+        return results
     procs = []
-    for k, f in enumerate(files):
-        if os.path.getsize(f) == 0:
-            continue
+    for k, f in todo:
         d = ctx.dir("%s.val%d" % (name, k))
         inputs = {"trace.ndjson": f}
         if module in TRACE_PREP:        # modules generated from the trace itself (spelling tables)
